@@ -52,7 +52,7 @@ def settings():
 # warning reads "maximum True values" and the cardinality does not survive XML (written as "(None, True)", read
 # back as unset).  Reported, /repo not repaired yet; with the switch off the grid reports
 # stored-cardinality-not-in-normal-form for each of them.
-SKIP_BASELINE_DEFECT_BOOL = True
+SKIP_BASELINE_DEFECT_BOOL = False      # repaired by fix in /repo (booleans are refused): the settings are enumerated
 BOOL_SETTINGS = [True, {"t": [True, 3]}, {"t": [None, True]}, {"t": [True, None]}, {"t": [False, 3]},
                  {"t": [True, True]}, {"t": [True, False]}, {"l": [True, 3]}]
 
